@@ -202,6 +202,18 @@ def renumber(txt, start, chain=None):
     return '\n'.join(out) + '\n'
 
 
+def moved(txt, resnum, atom_name, vec):
+    """one atom displaced by vec"""
+    out = []
+    for l in txt.split('\n'):
+        if l[:6] in ('ATOM  ', 'HETATM') and int(l[22:26]) == resnum and l[12:16].strip() == atom_name:
+            c = [float(l[30:38]) + vec[0], float(l[38:46]) + vec[1], float(l[46:54]) + vec[2]]
+            l = l[:30] + '%8.3f%8.3f%8.3f' % tuple(c) + l[54:]
+        if l:
+            out.append(l)
+    return '\n'.join(out) + '\n'
+
+
 def models(*texts):
     """several structures as MODEL 1..n of one file"""
     out = []
